@@ -385,7 +385,7 @@ impl Check for C13 {
         "C13"
     }
     fn rule(&self) -> String {
-        "proptest-generated source trees with symlinks to files, to directories with nested content, chains of 1,2,3,10,39,40 and 41 links (41 exceeds the kernel limit), relative and absolute targets, targets outside the source, dangling links, 2-cycles, self loops, links to an ancestor directory, directories reached through a link that themselves contain links, relative chains crossing directories with a same-named decoy, chains of 40/150/300 nested directories inside the source or behind a link; optionally the source argument itself is a link; both drivers, copied with -r -L. Oracle: if any link below the source cannot be resolved (dangling, cyclic, too long) => exit != 0; otherwise exit 0 => no symlink in the destination and the destination equals the model obtained by resolving every path (a link to a directory becomes a directory with the target's full contents), everything else untouched. Non-trivial: >=1 link to a directory, chain >= 2, or a link leaving the source, or a must-fail case; distinct by case hash.".into()
+        "proptest-generated source trees with symlinks to files, to directories with nested content, chains of 1,2,3,10,39,40 and 41 links (41 exceeds the kernel limit), relative and absolute targets, targets outside the source, dangling links, 2-cycles, self loops, links to an ancestor directory, directories reached through a link that themselves contain links, relative chains crossing directories with a same-named decoy, chains of 40/150/300 nested directories inside the source or behind a link; optionally the source argument itself is a link; both drivers, copied with -r -L, optionally plus --gitignore (no ignore file anywhere) and/or with the sources given as the pattern 's/*' under --glob (every child of s, dangling links included, is then a source of its own; only when all those names are UTF-8). Sub-check 'long': a link whose target resolves to an absolute path just below or above PATH_MAX (14-16 nested 250-byte directories below a base directory padded by 1-250 bytes; everything reachable through relative paths): the run may fail when the path cannot be resolved, must succeed when every path is below PATH_MAX, and exit 0 => no symlink in the destination and the link replaced by a regular file with the target's bytes. Oracle: if any link below the source cannot be resolved (dangling, cyclic, too long) => exit != 0; otherwise exit 0 => no symlink in the destination and the destination equals the model obtained by resolving every path (a link to a directory becomes a directory with the target's full contents), everything else untouched. Non-trivial: >=1 link to a directory, chain >= 2, or a link leaving the source, or a must-fail case; distinct by case hash.".into()
     }
     fn needs(&self) -> Needs {
         Needs { xcp: true, probe: false, fallback: false }
